@@ -248,6 +248,37 @@ _TF_MATH_IS_NN = {'softmax', 'softplus', 'log_softmax', 'top_k', 'softsign',
                   'l2_normalize', 'in_top_k'}
 
 
+_NEG_CMP = {ast.Eq: ast.NotEq, ast.NotEq: ast.Eq, ast.Is: ast.IsNot,
+            ast.IsNot: ast.Is, ast.In: ast.NotIn, ast.NotIn: ast.In,
+            ast.Lt: ast.GtE, ast.GtE: ast.Lt, ast.Gt: ast.LtE, ast.LtE: ast.Gt}
+_NEGATIVE_CMP = (ast.NotEq, ast.IsNot, ast.NotIn, ast.GtE, ast.LtE)
+
+
+def _is_negative_test(t):
+  if isinstance(t, ast.UnaryOp) and isinstance(t.op, ast.Not):
+    return True
+  return isinstance(t, ast.Compare) and len(t.ops) == 1 and isinstance(
+      t.ops[0], _NEGATIVE_CMP)
+
+
+def _negate(t):
+  """the negation of a test, with the negation folded into comparisons and
+  pushed through and / or"""
+  import copy
+  if isinstance(t, ast.UnaryOp) and isinstance(t.op, ast.Not):
+    return t.operand
+  if isinstance(t, ast.Compare) and len(t.ops) == 1 and type(
+      t.ops[0]) in _NEG_CMP:
+    n = copy.copy(t)
+    n.ops = [_NEG_CMP[type(t.ops[0])]()]
+    return n
+  if isinstance(t, ast.BoolOp):
+    return ast.copy_location(ast.BoolOp(
+        op=ast.Or() if isinstance(t.op, ast.And) else ast.And(),
+        values=[_negate(v) for v in t.values]), t)
+  return ast.copy_location(ast.UnaryOp(op=ast.Not(), operand=t), t)
+
+
 def _same_text(a, b):
   return ast.dump(a).replace('Store()', 'Load()') == ast.dump(b).replace(
       'Store()', 'Load()')
@@ -271,12 +302,47 @@ class _Spelling(ast.NodeTransformer):
     return bool(body) and isinstance(
         body[-1], (ast.Return, ast.Raise, ast.Continue, ast.Break))
 
-  def _flatten(self, body):
+  @staticmethod
+  def _size(stmts):
+    return sum(1 for st in stmts for _ in ast.walk(st))
+
+  def _flatten(self, body, in_chain=False):
+    """early-return form.  When exactly one arm of an if leaves the block
+    (return / raise / continue / break) that arm becomes the guard; when both
+    do - written as if / else or as a guard followed by the rest of the block
+    - the smaller arm is the guard (ties: the positive test), so that the
+    form does not depend on which of the two spellings was used."""
     out = []
     todo = list(body)
     while todo:
       s = todo.pop(0)
-      if isinstance(s, ast.If) and s.orelse and self._terminated(s.body):
+      if not isinstance(s, ast.If):
+        out.append(s)
+        continue
+      a_term = self._terminated(s.body)
+      # (a guard followed by the rest of the block is left as written: only
+      # real two-armed ifs are re-oriented, which makes them agree with the
+      # guard spelling whenever the guard is the smaller arm - the usual case)
+      b, virtual = (s.orelse, False) if s.orelse else ([], False)
+      b_term = bool(b) and self._terminated(b)
+      # an if that continues with elif, or is itself the elif arm of a
+      # chain, is a dispatch: its arms keep their order
+      is_elif = in_chain or (len(s.orelse) == 1 and isinstance(
+          s.orelse[0], ast.If))
+      swap = False
+      if a_term and b_term and not is_elif:
+        sa, sb = self._size(s.body), self._size(b)
+        swap = sb < sa or (sb == sa and _is_negative_test(s.test))
+      elif b_term and not a_term and s.orelse and not is_elif:
+        swap = True
+      if swap:
+        guard, rest = list(b), list(s.body)
+        s.test = _negate(s.test)
+        s.body = guard
+        s.orelse = []
+        out.append(s)
+        todo = rest + ([] if virtual else todo)
+      elif s.orelse and a_term:
         rest = s.orelse
         s.orelse = []
         out.append(s)
@@ -292,7 +358,9 @@ class _Spelling(ast.NodeTransformer):
       if isinstance(b, list) and b and isinstance(b[0], ast.stmt):
         b = [y for st in b for y in self._split_chain(st)]
         b = [y for st in b for y in self._ifexp_assign(st)]
-        setattr(n, f, self._flatten(b))
+        chain = f == 'orelse' and isinstance(n, ast.If) and len(b) == 1 and \
+            isinstance(b[0], ast.If)
+        setattr(n, f, self._flatten(b, in_chain=chain))
     return n
 
   def visit_Attribute(self, n):
@@ -599,8 +667,14 @@ def canonicalise(tree):
       # the arms are swapped BEFORE negations are folded into comparison
       # operators, so that `if not x in s: A else: B` and
       # `if x in s: B else: A` get the same normal form
+      def leaves(b):
+        return bool(b) and isinstance(b[-1], (ast.Return, ast.Raise,
+                                              ast.Continue, ast.Break))
       if n.orelse and not (len(n.orelse) == 1 and isinstance(
-          n.orelse[0], ast.If)):
+          n.orelse[0], ast.If)) and not leaves(n.body) and not leaves(
+              n.orelse):
+        # (ifs with an arm that leaves the block are oriented by the
+        # early-return normal form instead)
         t, neg = self._positive(n.test)
         n.test = t
         if neg:
